@@ -172,6 +172,13 @@ pub fn swap_input(
 
         base_asset_amount
     } else {
+        // nothing is exchanged: a limit that demands to receive base cannot be met
+        if !base_asset_limit.is_zero() && direction == Direction::AddToAmm {
+            return Err(StdError::generic_err(
+                "Less than minimum base asset amount limit",
+            ));
+        }
+
         Uint128::zero()
     };
 
@@ -244,6 +251,13 @@ pub fn swap_output(
 
         quote_asset_amount
     } else {
+        // nothing is exchanged: a limit that demands to receive quote cannot be met
+        if !quote_asset_limit.is_zero() && update_direction == Direction::RemoveFromAmm {
+            return Err(StdError::generic_err(
+                "Less than minimum quote asset amount limit",
+            ));
+        }
+
         Uint128::zero()
     };
 
